@@ -42,6 +42,10 @@ def strategy(tier):
         "flags_off": st.lists(st.sampled_from(M.FLAG_KINDS), max_size=3, unique=True),
         "headers": st.one_of(st.none(), st.lists(st.sampled_from(HEADER_POOL), min_size=2, max_size=5, unique=True)),
         "diagnostics": st.sampled_from([True, False, False, False]),
+        # the same command line already ran once into the same output directory
+        "rerun": st.sampled_from([False, False, True]),
+        # a symbolic link in the tree to a CMake file that lives elsewhere
+        "filelink": st.sampled_from([None, None, "top", "sub"]),
     })
 
 
@@ -84,6 +88,18 @@ def evaluate(case):
             # the "nothing but the pages on stdout" clause is conditional on no diagnostics, the file-system clauses are not
             with open(os.path.join(inp, "zz_diag.cmake"), "w") as f:
                 f.write("ct_add_test(NAME)\ncpp_class()\nfunction(ok_diag)\nendfunction()\n#[[[\n# dangling at EOF\n#]]\n")
+        link_dir = None
+        if case.get("filelink") and not lone:
+            os.makedirs(sb.path("else", "shared"))
+            with open(sb.path("else", "shared", "shared.cmake"), "w") as f:
+                f.write("#[[[\n# Lives outside the tree.\n#]]\nfunction(shared_fn a)\nendfunction()\n")
+            where = inp
+            if case["filelink"] == "sub" and tree["dirs"]:
+                where = os.path.join(inp, sorted(tree["dirs"])[0])
+            os.symlink(sb.path("else", "shared", "shared.cmake"), os.path.join(where, "zz_link.cmake"))
+            link_dir = os.path.relpath(where, inp)
+            link_dir = "" if link_dir == "." else link_dir
+            res.labels.append("symlinked-file:" + case["filelink"])
         cwd = sb.path("cwd")
         outloc = case["outloc"]
         if lone and outloc.startswith("nested"):
@@ -126,12 +142,19 @@ def evaluate(case):
             common.append("-r")
         if case["prefix"]:
             common += ["-p", case["prefix"]]
-        before = S.snapshot(sb.root)
+        snap0 = S.snapshot(sb.root, times=True)
+        if case.get("rerun"):
+            res.labels.append("second-run-into-the-same-output")
+            first = S.run_main(common + ["-o", out_arg], cwd=cwd)
+            if first.exc is not None or first.code != 0:
+                res.fail("with-o:" + (exc_key(first.exc) if first.exc else f"exit-{first.code}"), (repr(first.exc) + first.stderr)[-300:])
+                return res
+        before = S.snapshot(sb.root, times=True)
         run = S.run_main(common + ["-o", out_arg], cwd=cwd)
         if run.exc is not None or run.code != 0:
             res.fail("with-o:" + (exc_key(run.exc) if run.exc else f"exit-{run.code}"), (repr(run.exc) + run.stderr)[-300:])
             return res
-        after = S.snapshot(sb.root)
+        after = S.snapshot(sb.root, times=True)
         out_rel = os.path.relpath(out_abs, sb.root)
         for p in sorted(set(before) - set(after)):
             res.fail("deleted", f"{p} was deleted by the run")
@@ -149,7 +172,10 @@ def evaluate(case):
             elif not inside and not ancestor:
                 zone = p.split("/")[0]
                 res.fail(f"created-outside-output:{zone}", f"{p} created outside the output directory {out_rel}")
-            if inside and v[0] == "file":
+        for p, v in sorted(after.items()):
+            # files of the output directory that this command line produced (in the run under test or the identical one before)
+            inside = p == out_rel or p.startswith(out_rel + "/")
+            if inside and v[0] == "file" and snap0.get(p) != v:
                 written[os.path.relpath(os.path.join(sb.root, p), out_abs)] = None
         for rel, data in prepop.items():
             p = os.path.join(out_abs, rel)
@@ -162,12 +188,12 @@ def evaluate(case):
             with open(os.path.join(out_abs, rel), encoding="utf-8") as f:
                 pages[rel] = f.read()
         # without -o
-        mid = S.snapshot(sb.root)
+        mid = S.snapshot(sb.root, times=True)
         run2 = S.run_main(common, cwd=cwd)
         if run2.exc is not None or run2.code != 0:
             res.fail("stdout-mode:" + (exc_key(run2.exc) if run2.exc else f"exit-{run2.code}"), (repr(run2.exc) + run2.stderr)[-300:])
             return res
-        end = S.snapshot(sb.root)
+        end = S.snapshot(sb.root, times=True)
         if end != mid:
             diff = sorted(set(end.items()) ^ set(mid.items()))[:3]
             res.fail("stdout-mode-touches-files", f"snapshot changed without -o: {diff}")
@@ -185,7 +211,8 @@ def evaluate(case):
                 by_dir.setdefault(os.path.dirname(k), []).append(os.path.basename(k))
             for d, names in by_dir.items():
                 # sorted by source file name; page names are stems, compare via the source names
-                src_names = sorted(n for n in (S.subtree(tree, d)["files"] if not lone else {top_files[0]: 1}) if T.is_cmake(n))
+                src_names = sorted([n for n in (S.subtree(tree, d)["files"] if not lone else {top_files[0]: 1}) if T.is_cmake(n)] +
+                                   (["zz_link.cmake"] if link_dir is not None and d == link_dir else []))
                 want = [T.stem_of(n) + ".rst" for n in src_names if T.stem_of(n) + ".rst" in names]
                 if names != want:
                     res.fail("stdout-order-within-directory", f"directory {d!r}: printed {names}, sorted order is {want}")
@@ -204,7 +231,7 @@ def evaluate(case):
                 o2, why2 = split_stdout(p.stdout.decode("utf-8"), pages)
                 if o2 is None and not (case.get("diagnostics") and not lone):
                     res.fail("subprocess-stdout-not-pages", why2)
-                if S.snapshot(sb.root) != end:
+                if S.snapshot(sb.root, times=True) != end:
                     res.fail("subprocess-stdout-mode-touches-files", "snapshot changed")
         ndirs = 1 + len(S.tree_dirs(tree))
         res.labels += ["out:" + outloc, "prepopulated" if prepop else "fresh-output", "input:" + ("file" if lone else "dir")]
